@@ -38,7 +38,7 @@ def c20_overlay(tmpdir):
 def _args(tier, seed):
     if tier == "quick":
         return ["-seed", seed, "-n", 400, "-big", 1, "-e2e", 9, "-errs"]
-    return ["-seed", seed, "-n", 2000, "-big", 3, "-e2e", 45, "-errs"]
+    return ["-seed", seed, "-n", 1500, "-big", 3, "-e2e", 45, "-errs"]
 
 
 SPEC = dict(
